@@ -1,2 +1,18 @@
 import TlxVerif.Props.C05
-#print axioms TlxVerif.C05.placeholder
+#print axioms TlxVerif.C05.merge3_tableOK
+#print axioms TlxVerif.C05.merge4_tableOK
+#print axioms TlxVerif.C05.merge3_rows_ops
+#print axioms TlxVerif.C05.merge4_rows_ops
+#print axioms TlxVerif.C05.run_spec
+#print axioms TlxVerif.C05.kMerge_spec
+#print axioms TlxVerif.C05.stableRun_exists_unique
+#print axioms TlxVerif.C05.mergeAdvance_spec
+#print axioms TlxVerif.C05.merge3_guarded_run
+#print axioms TlxVerif.C05.merge4_guarded_run
+#print axioms TlxVerif.C05.merge3_sentinel_run
+#print axioms TlxVerif.C05.merge4_sentinel_run
+#print axioms TlxVerif.C05.loserTree_run
+#print axioms TlxVerif.C05.multiwayMergeBase_partial
+#print axioms TlxVerif.C05.machineMerge_run
+#print axioms TlxVerif.C05.StableRun.kMerge_eq
+#print axioms TlxVerif.C05.MinRun.sorted
